@@ -477,6 +477,16 @@ class EvalMixin(object):
             if isinstance(r, bool):
                 return r if op == 'in' else not r
             return r if op == 'in' else tm.not_(r)
+        for x, y, flip in ((a, b, False), (b, a, True)):
+            # numpy: comparing an ndarray with a number is ELEMENTWISE and gives a boolean array (it was answered as object identity)
+            if isinstance(x, Arr) and x.kind == 'ndarray' and x.objs is None and is_num(y) and not isinstance(y, bool):
+                if x.ndim != 1:
+                    raise Unsupported('elementwise comparison of a rank>1 array (line %s)' % line)
+                from . import arrays
+                opx = {'<': '>', '<=': '>=', '>': '<', '>=': '<='}.get(op, op) if flip else op
+                f = {'==': tm.eq, '!=': tm.ne, '<': tm.lt, '<=': tm.le, '>': tm.gt, '>=': tm.ge}[opx]
+                yt = tm.to_real(to_term(y))
+                return arrays.pointwise(self, x.shape[0], 'cmp', BOOL, lambda j: f(tm.to_real(arrays.elem1(x, j)), yt))
         if _is_nonfinite(a) or _is_nonfinite(b):
             return self.nonfinite_cmp(op, a, b)
         if isinstance(a, Fraction):
